@@ -88,6 +88,13 @@ Inductive case :=
    bound afterwards (where readable), (stored, ttl, cut) of entries admitted *)
 | CProofTree (d dspec : Z) (lease : option Z) (ahit : option entry) (t0 t1 : Z) (ttls : list Z)
              (bobs : option (option Z)) (adm : list (Z * Z * option Z))
+(* a reply dns64 relays (session 4): mode 0 = A-basis reply (RFC 6147 5.1.6), 2 = PTR translation
+   (5.3.1; the first TTL observed is the synthesised CNAME's), 1 = the twin of an A-basis case that
+   judges one clause alone: the reply against the lifetime of the cached AAAA answer that gated it.
+   [recs]: per relayed record the piece it was copied from; [consulted]: every answer the request
+   tree consulted (the gate first); bracket; request bound afterwards (where readable); TTLs observed *)
+| CDns64Relay (mode : N) (gate : option piece) (recs consulted : list piece) (t0 t1 : Z)
+              (bobs : option (option Z)) (obs : list Z)
 (* ReplaceIfCurrent racing SetFromResponse*/Purge on one store, any order *)
 | CCas (ops : list cop)
 (* prefetch through the real queue: claimed entry, refresh inputs, what the
@@ -521,6 +528,10 @@ Definition check_case (c : case) : bool :=
       (* the alias chain is copied with its own TTLs lowered to the synthesised one *)
       && list_z_eqb cobs (map (fun v => let t := piece_ttl v t1 in if ttl <? t then ttl else t) via)
       && match bobs with Some b => oz_eqb b (dns64_bound None consulted) | None => true end
+  | CDns64Relay mode gate recs consulted t0 t1 bobs obs =>
+      if (mode =? 1)%N then true
+      else list_z_eqb obs (if (mode =? 2)%N then dns64_ptr_reply recs t1 else dns64_basis_reply recs t1)
+           && match bobs with Some b => oz_eqb b (dns64_bound None consulted) | None => true end
   | CProofTree d dspec lease ahit t0 t1 ttls bobs adm =>
       match ahit with
       | Some e =>
@@ -654,6 +665,33 @@ Definition spec_case (c : case) : bool :=
                                end) (neg :: via ++ addrs)
          | None => true
          end
+  | CDns64Relay mode gate recs consulted t0 t1 bobs obs =>
+      if (mode =? 1)%N then
+        (* the reply is inside the lifetime of the cached AAAA answer that gated it *)
+        match gate with
+        | Some (PHit e) => forallb (fun x => (t0 <? entry_end e) && (x * second <=? entry_end e - t0)) obs
+        | _ => true
+        end
+      else
+        (* every relayed record is inside the lifetime of the cached answer it was copied from and
+           no TTL is invented for it; the request tree is left bound by every consulted answer *)
+        let relayed := if (mode =? 2)%N then tl obs else obs in
+        (length relayed =? length recs)%nat
+        && forallb (fun xp => let '(x, p) := xp in
+                      (0 <=? x)
+                      && match p with
+                         | PHit e => (t0 <? entry_end e) && (x * second <=? entry_end e - t0)
+                         | PFresh t _ => x <=? t
+                         end) (combine relayed recs)
+        && match bobs with
+           | Some b =>
+               forallb (fun p => match p with
+                                 | PHit e => match b with Some b' => b' <=? entry_end e | None => false end
+                                 | PFresh _ (Some l) => match b with Some b' => b' <=? l | None => false end
+                                 | PFresh _ None => true
+                                 end) consulted
+           | None => true
+           end
   | CProofTree d dspec lease ahit t0 t1 ttls bobs adm =>
       (* nothing that came out of the cache outlives the denial it was composed from;
          the tree is bound by it; what is re-cached ends with it *)
